@@ -122,7 +122,8 @@ where
 {
     // Just decent size bounds checks to ensure we have a lot of space.
     assert!(M::FORMATTED_SIZE < BUFFER_SIZE - 2);
-    debug_assert!(bytes.len() >= BUFFER_SIZE);
+    // NOTE: The sign has already been split off the buffer.
+    debug_assert!(bytes.len() >= BUFFER_SIZE - 1);
 
     // Config options
     let format = NumberFormat::<{ FORMAT }> {};
@@ -194,7 +195,8 @@ where
 
     // Just decent size bounds checks to ensure we have a lot of space.
     assert!(M::FORMATTED_SIZE < BUFFER_SIZE - 2);
-    debug_assert!(bytes.len() >= BUFFER_SIZE);
+    // NOTE: The sign has already been split off the buffer.
+    debug_assert!(bytes.len() >= BUFFER_SIZE - 1);
 
     // Config options
     let format = NumberFormat::<{ FORMAT }> {};
